@@ -623,6 +623,236 @@ theorem negotiate_library_not_mem (t : Tables) (C S : List Version) (hdr : Versi
   simp [libraryRespond, h, negotiate_msg_one, negotiateItem, Item.err, statusFailed, statusSuccess,
     reasonInvalidMessage, reasonNotSupported]
 
+/-! ### the mutable version pointer: invariants of the step system -/
+
+/-- every client's pointer designates an allocated variable. -/
+def WF (w : World) : Prop := 1 ≤ w.store.next ∧ ∀ c ∈ w.clients, c.ver < w.store.next
+
+/-- every client's version variable holds `v`. -/
+def AllAt (w : World) (v : Version) : Prop := ∀ c ∈ w.clients, w.store.val c.ver = v
+
+/-- no client points to the exported package variable `kmip.V1_0`. -/
+def NoAlias (w : World) : Prop := ∀ c ∈ w.clients, c.ver ≠ addrV10
+
+theorem mem_setClient {cs : List MClient} {i : Nat} {c x : MClient} (h : x ∈ setClient cs i c) :
+    x ∈ cs ∨ x = c := List.mem_or_eq_of_mem_set h
+
+theorem step_inv (w : World) (st : Step) (v : Version) (hwf : WF w) (hall : AllAt w v)
+    (h : NoAlias w ∨ st.isAssign = false) :
+    WF (step w st).1 ∧ AllAt (step w st).1 v ∧ (NoAlias w → NoAlias (step w st).1) ∧
+      ∀ out, (step w st).2 = some out → out.2.version = v := by
+  cases st with
+  | request i n opts =>
+    simp only [step]
+    cases hc : w.clients[i]? with
+    | none => exact ⟨hwf, hall, id, by simp⟩
+    | some c =>
+      have hmem : c ∈ w.clients := List.mem_of_getElem? hc
+      simp only
+      by_cases hcl : c.closed = true
+      · simp only [hcl, if_true]; exact ⟨hwf, hall, id, by simp⟩
+      · simp only [hcl, Bool.false_eq_true, if_false]
+        refine ⟨⟨hwf.1, ?_⟩, ?_, ?_, ?_⟩
+        · intro x hx
+          rcases mem_setClient hx with hx | rfl
+          · exact hwf.2 x hx
+          · exact hwf.2 c hmem
+        · intro x hx
+          rcases mem_setClient hx with hx | rfl
+          · exact hall x hx
+          · exact hall c hmem
+        · intro hna x hx
+          rcases mem_setClient hx with hx | rfl
+          · exact hna x hx
+          · exact hna c hmem
+        · intro out ho
+          simp only [Option.some.injEq] at ho
+          rw [← ho]
+          simp only
+          rw [(batchOptHeader_version _ n opts).1]
+          exact hall c hmem
+  | connLost i =>
+    simp only [step]
+    cases hc : w.clients[i]? with
+    | none => exact ⟨hwf, hall, id, by simp⟩
+    | some c =>
+      have hmem : c ∈ w.clients := List.mem_of_getElem? hc
+      simp only
+      refine ⟨⟨hwf.1, ?_⟩, ?_, ?_, by simp⟩
+      · intro x hx
+        rcases mem_setClient hx with hx | rfl
+        · exact hwf.2 x hx
+        · exact hwf.2 c hmem
+      · intro x hx
+        rcases mem_setClient hx with hx | rfl
+        · exact hall x hx
+        · exact hall c hmem
+      · intro hna x hx
+        rcases mem_setClient hx with hx | rfl
+        · exact hna x hx
+        · exact hna c hmem
+  | close i =>
+    simp only [step]
+    cases hc : w.clients[i]? with
+    | none => exact ⟨hwf, hall, id, by simp⟩
+    | some c =>
+      have hmem : c ∈ w.clients := List.mem_of_getElem? hc
+      simp only
+      refine ⟨⟨hwf.1, ?_⟩, ?_, ?_, by simp⟩
+      · intro x hx
+        rcases mem_setClient hx with hx | rfl
+        · exact hwf.2 x hx
+        · exact hwf.2 c hmem
+      · intro x hx
+        rcases mem_setClient hx with hx | rfl
+        · exact hall x hx
+        · exact hall c hmem
+      · intro hna x hx
+        rcases mem_setClient hx with hx | rfl
+        · exact hna x hx
+        · exact hna c hmem
+  | clone i =>
+    simp only [step]
+    cases hc : w.clients[i]? with
+    | none => exact ⟨hwf, hall, id, by simp⟩
+    | some c =>
+      have hmem : c ∈ w.clients := List.mem_of_getElem? hc
+      simp only [Store.alloc]
+      refine ⟨⟨by simp, ?_⟩, ?_, ?_, by simp⟩
+      · intro x hx
+        simp only [List.mem_append, List.mem_cons, List.not_mem_nil, or_false] at hx
+        rcases hx with hx | rfl
+        · exact Nat.lt_succ_of_lt (hwf.2 x hx)
+        · simp
+      · intro x hx
+        simp only [List.mem_append, List.mem_cons, List.not_mem_nil, or_false] at hx
+        rcases hx with hx | rfl
+        · have := hwf.2 x hx
+          simp only [Nat.ne_of_lt this, if_false]
+          exact hall x hx
+        · simp only [if_true]
+          exact hall c hmem
+      · intro hna x hx
+        simp only [List.mem_append, List.mem_cons, List.not_mem_nil, or_false] at hx
+        rcases hx with hx | rfl
+        · exact hna x hx
+        · simp only [addrV10]
+          have := hwf.1
+          omega
+  | assignV10 v' =>
+    simp only [step]
+    rcases h with hna | hf
+    · refine ⟨hwf, ?_, ?_, by simp⟩
+      · intro x hx
+        simp only [Store.write, hna x hx, if_false]
+        exact hall x hx
+      · intro _ x hx; exact hna x hx
+    · simp [Step.isAssign] at hf
+
+/-- The frame property: whatever happens after `Dial` — requests, lost connections and reconnections,
+    clones, closes —, as long as no other code assigns `kmip.V1_0` or no client points to it, every request
+    header carries the value the clients' version variables held at the start. -/
+theorem runM_version (v : Version) : ∀ (steps : List Step) (w : World), WF w → AllAt w v →
+    (NoAlias w ∨ ∀ st ∈ steps, st.isAssign = false) →
+    ∀ out ∈ runM w steps, out.2.version = v := by
+  intro steps
+  induction steps with
+  | nil => intro w _ _ _ out ho; simp [runM] at ho
+  | cons st rest ih =>
+    intro w hwf hall h out ho
+    have hst : NoAlias w ∨ st.isAssign = false := by
+      rcases h with h | h
+      · exact .inl h
+      · exact .inr (h st (List.mem_cons_self ..))
+    obtain ⟨hwf', hall', hna', hout⟩ := step_inv w st v hwf hall hst
+    have hrest : NoAlias (step w st).1 ∨ ∀ s ∈ rest, s.isAssign = false := by
+      rcases h with h | h
+      · exact .inl (hna' h)
+      · exact .inr fun s hs => h s (List.mem_cons_of_mem _ hs)
+    unfold runM at ho
+    cases hs : step w st with
+    | mk w' o =>
+      rw [hs] at ho hwf' hall' hrest hout
+      cases o with
+      | none => exact ih w' hwf' hall' hrest out ho
+      | some o' =>
+        simp only [List.mem_cons] at ho
+        rcases ho with rfl | ho
+        · exact hout _ rfl
+        · exact ih w' hwf' hall' hrest out ho
+
+/-- `dialM` unfolded along the result of `negotiate`. -/
+theorem dialM_none (t : Tables) (s : Store) (calls : List (List Version)) (sb : ServerBehaviour)
+    (s' : Store) (c : MClient) (h : dialM t s calls none sb = .ok (s', c)) :
+    ∃ v bi, negotiate t (clientList { calls := calls, enforce := none })
+        (respond sb discoverHeader (clientList { calls := calls, enforce := none })) = .ok v ∧
+      respond sb discoverHeader (clientList { calls := calls, enforce := none }) = .msg 1 [bi] ∧
+      ((bi.status = statusFailed ∧ bi.reason = reasonNotSupported ∧ v = v10 ∧ s' = s ∧ c.ver = addrV10) ∨
+       (¬ (bi.status = statusFailed ∧ bi.reason = reasonNotSupported) ∧ s' = (s.alloc v).1 ∧ c.ver = s.next)) := by
+  unfold dialM at h
+  simp only at h
+  cases hn : negotiate t (clientList { calls := calls, enforce := none })
+      (respond sb discoverHeader (clientList { calls := calls, enforce := none })) with
+  | err e => rw [hn] at h; cases h
+  | panic => rw [hn] at h; cases h
+  | ok v =>
+    rw [hn] at h
+    obtain ⟨bi, hrt, hc⟩ := negotiate_ok t _ _ v hn
+    refine ⟨v, bi, rfl, hrt, ?_⟩
+    rw [hrt] at h
+    simp only at h
+    by_cases hfb : bi.status = statusFailed ∧ bi.reason = reasonNotSupported
+    · simp only [hfb, and_self, decide_true, if_true, Res.ok.injEq, Prod.mk.injEq] at h
+      obtain ⟨rfl, rfl⟩ := h
+      rcases hc with ⟨_, _, hv, _⟩ | ⟨hnot, _⟩
+      · exact .inl ⟨hfb.1, hfb.2, hv, rfl, rfl⟩
+      · exact absurd hfb hnot
+    · have hd : decide (bi.status = statusFailed ∧ bi.reason = reasonNotSupported) = false := by simp [hfb]
+      simp only [hd, Bool.false_eq_true, if_false, Store.alloc, Res.ok.injEq, Prod.mk.injEq] at h
+      obtain ⟨rfl, rfl⟩ := h
+      exact .inr ⟨hfb, rfl, rfl⟩
+
+/-- what `dialM` leaves: a well-formed one-client world whose version variable holds the version `dial`
+    adopts (the package variable `kmip.V1_0` holding 1.0 when `Dial` runs). -/
+theorem dialM_spec (t : Tables) (s : Store) (calls : List (List Version)) (sb : ServerBehaviour)
+    (s' : Store) (c : MClient) (hs : 1 ≤ s.next) (h10 : s.val addrV10 = v10)
+    (h : dialM t s calls none sb = .ok (s', c)) :
+    (∃ sup, dial t { calls := calls, enforce := none } sb = .ok { version := s'.val c.ver, supported := sup }) ∧
+      WF { store := s', clients := [c] } := by
+  obtain ⟨v, bi, hn, _, hc⟩ := dialM_none t s calls sb s' c h
+  have hd : dial t { calls := calls, enforce := none } sb =
+      .ok { version := v, supported := clientList { calls := calls, enforce := none } } := by
+    unfold dial
+    simp only
+    rw [hn]
+  rcases hc with ⟨_, _, hv, hs', hcv⟩ | ⟨_, hs', hcv⟩
+  · subst hs'
+    refine ⟨⟨clientList { calls := calls, enforce := none }, by rw [hd, hcv, h10, hv]⟩, hs, ?_⟩
+    intro x hx
+    simp only [List.mem_cons, List.not_mem_nil, or_false] at hx
+    subst hx
+    rw [hcv]; simp only [addrV10]; omega
+  · subst hs'
+    refine ⟨⟨clientList { calls := calls, enforce := none }, by rw [hd, hcv]; simp [Store.alloc]⟩, by simp [Store.alloc], ?_⟩
+    intro x hx
+    simp only [List.mem_cons, List.not_mem_nil, or_false] at hx
+    subst hx
+    rw [hcv]; simp [Store.alloc]
+
+/-- outside the fallback the client's variable is a fresh one: nothing else of the program can reach it. -/
+theorem dialM_noAlias (t : Tables) (s : Store) (calls : List (List Version)) (sb : ServerBehaviour)
+    (s' : Store) (c : MClient) (hs : 1 ≤ s.next) (h : dialM t s calls none sb = .ok (s', c))
+    (hnf : ∀ bi, respond sb discoverHeader (clientList { calls := calls, enforce := none }) = .msg 1 [bi] →
+      ¬ (bi.status = statusFailed ∧ bi.reason = reasonNotSupported)) :
+    NoAlias { store := s', clients := [c] } := by
+  obtain ⟨v, bi, _, hrt, hc⟩ := dialM_none t s calls sb s' c h
+  rcases hc with ⟨h1, h2, _⟩ | ⟨_, _, hcv⟩
+  · exact absurd ⟨h1, h2⟩ (hnf bi hrt)
+  · intro x hx
+    simp only [List.mem_cons, List.not_mem_nil, or_false] at hx
+    subst hx
+    rw [hcv]; simp only [addrV10]; omega
+
 /-! ### the finite table of the property's quantifier (sub-sets of 1.0 … 1.4) -/
 
 /-- all sub-lists of a list. -/
@@ -634,18 +864,33 @@ def sublists : List Version → List (List Version)
 def specMax (c s : List Version) : Option Version :=
   defaultVersions.find? (fun v => c.contains v && s.contains v)
 
-/-- what the property (resp. the recorded finding) predicts for client set `c` and server set `s`. -/
+/-- what the PROPERTY predicts for client set `c` and server set `s` (an empty server configuration means
+    the default list): the highest common version, failure when there is none. -/
 def expected (c s : List Version) : Result :=
   let s' := if s.isEmpty then defaultVersions else s
-  if s'.contains v11 then
-    match specMax c s' with
-    | some m => .ok m
-    | none => .err
-  else .err
+  match specMax c s' with
+  | some m => .ok m
+  | none => .err
 
+/-- the rows of the table on which the OPEN FINDING `nego:server-without-1.1-rejects-discovery` bites:
+    a common version exists, but the server's set lacks 1.1 (the header version of the discovery request). -/
+def findingRow (c s : List Version) : Bool :=
+  let s' := if s.isEmpty then defaultVersions else s
+  !s'.contains v11 && (specMax c s').isSome
+
+/-- the model's result for one row (client configured with `c`, kmip-go server with `s`). -/
+def tableRow (c s : List Version) : Result :=
+  adopt { calls := [c.reverse], enforce := none } (.library s.reverse)
+
+/-- every row outside the finding rows gives the property's expected result; every finding row fails. -/
 def tableOk : Bool :=
   (sublists defaultVersions).all fun c =>
     c.isEmpty || (sublists defaultVersions).all fun s =>
-      decide (adopt { calls := [c.reverse], enforce := none } (.library s.reverse) = expected c s)
+      if findingRow c s then decide (tableRow c s = .err) else decide (tableRow c s = expected c s)
+
+/-- number of rows (non-empty client set × server set) for which `p` holds. -/
+def countRows (p : List Version → List Version → Bool) : Nat :=
+  ((sublists defaultVersions).filter (fun c => !c.isEmpty)).foldl
+    (fun n c => n + ((sublists defaultVersions).filter (fun s => p c s)).length) 0
 
 end Kmip.Nego
